@@ -78,8 +78,10 @@ def cases(rng, tier):
         if r < 0.1 and n > 0:
             missing = rng.randrange(n)
             layout = [t for t in layout if t != ("o", missing)]
-        elif r < 0.2:
-            nobs_q = max(0, n + rng.choice([-1, 1, 2]))
+        elif r < 0.25:
+            nobs_q = rng.choice([1, 1, max(0, n - 1), n + 1, n + 2])
+            if nobs_q == n:
+                nobs_q = n + 1
         obs = _rand_obs(rng, nobs_q, rng.randint(1, 4))
         # registers of the original circuit: split n into chunks
         regs, left = [], n
